@@ -160,6 +160,71 @@ def anytype_spellings(ctx):
                                   {"text": text, "handler": h})
 
 
+PAD_FIELDS = {("element", "int"): "i", ("element", "float"): "f", ("element", "boolean"): "b", ("element", "decimal"): "d",
+              ("element", "hexBinary"): "hx", ("element", "base64Binary"): "b64", ("element", "date"): "dt", ("element", "dateTime"): "dtm",
+              ("element", "time"): "tm", ("element", "duration"): "du", ("element", "period"): "pe", ("element", "enum"): "e",
+              ("element", "intTokens"): "ints", ("element", "string"): "s",
+              ("attribute", "int"): "ai", ("attribute", "float"): "af", ("attribute", "enum"): "n"}
+
+
+def padded_values(ctx):
+    """spec/MC_Pad.tla: XML whitespace around the lexical form of a non-string value is not part of the value
+    (whiteSpace = collapse); around a string it is (preserve)."""
+    import xml.etree.ElementTree as ET
+
+    from .. import zoo
+
+    res = ctx.tlc("MC_Pad", "run.cfg", workers=1,
+                  extra_files={"run.cfg": "SPECIFICATION Spec\nINVARIANT InvStripIdempotent\nCONSTRAINT Emit\nCHECK_DEADLOCK FALSE\n"},
+                  label="MC_Pad type x position x pads", tags=("PAD",), timeout=1500)
+    pads, seen = [], set()
+    for _t, c in res.printed:
+        key = (c["type"], c["pos"], c["lpad"], c["rpad"])
+        if key not in seen:
+            seen.add(key)
+            pads.append(c)
+    xctx = XmlContext()
+    insts = list(zoo.instances(ctx.seed + 9, ctx.pick(40, 400), roots=[zoo.Prims]))
+    cfg = ParserConfig(fail_on_converter_warnings=True)
+    n = 0
+    for c in pads:
+        fname = PAD_FIELDS[(c["pos"], c["type"])]
+        have = [o for o in insts if getattr(o, fname) not in (None, [], "")]
+        if not have:
+            ctx.divergences.append({"kind": "pad-field-never-set", "field": fname})
+            continue
+        for obj in have[: ctx.pick(3, 12)]:
+            text = rb.render(obj, xctx, "native")
+            root = ET.fromstring(text)
+            if c["pos"] == "element":
+                target = [e for e in root if e.tag.rpartition("}")[2] == fname][0]
+                target.text = c["lpad"] + (target.text or "") + c["rpad"]
+            else:
+                key = [k for k in root.attrib if k.rpartition("}")[2] == fname][0]
+                root.set(key, c["lpad"] + root.get(key) + c["rpad"])
+            padded = ET.tostring(root, encoding="unicode")
+            want = obj
+            if c["facet"] == "preserve":
+                # the independent oracle for what the document says: expat's infoset (line ends normalised)
+                import dataclasses
+
+                want = dataclasses.replace(obj, **{fname: [e for e in ET.fromstring(padded) if e.tag.rpartition("}")[2] == fname][0].text})
+            for h in ("native", "lxml"):
+                n += 1
+                ctx.case(("pad", c["type"], c["pos"], c["lpad"], c["rpad"], repr(getattr(obj, fname)), h))
+                st, got, _w = hb.parse(padded, h, xctx, zoo.Prims, "str", cfg)
+                if st != "ok" or not c01eq(got, want):
+                    ctx.violation(f"{c['type']} {c['pos']} padded with {c['lpad']!r} / {c['rpad']!r} ({h}): parses to {fname}={repr(getattr(got, fname, got))[:200]}, expected {getattr(want, fname)!r}",
+                                  {"text": padded, "handler": h, "type": c["type"], "position": c["pos"]})
+    ctx.extra["padded_value_cases"] = n
+
+
+def c01eq(a, b):
+    from .c01 import _eq
+
+    return _eq(a, b)
+
+
 def has_qualified_qname(doc) -> bool:
     """Selector part of F14: the document carries a namespace-qualified QName value or xsi:type."""
     for _n, atoms in doc["attrs"]:
@@ -194,6 +259,7 @@ def run(ctx):
         ctx.sample({"document": c["doc"], "spellings": [rb.render_doc(c["doc"], s) for s in (0, 1, 2)]})
     ctx.extra["documents_respelled"] = len(cases)
     anytype_spellings(ctx)
+    padded_values(ctx)
 
 
 def replay(ctx, doc):
